@@ -12,7 +12,7 @@ import (
 // C02 — a client only ever outputs tokens that verify and belong to its own request.
 type c02 struct{ base }
 
-func init() { core.Register(c02{base{"C02", "fault_enumeration", 96, 1600}}) }
+func init() { core.Register(c02{base{"C02", "fault_enumeration", 400, 8000}}) }
 
 func (c02) Describe() core.Description {
 	return core.Description{
